@@ -89,28 +89,35 @@ Proof. unfold gen_crps_over_cell. cell; reflexivity. Qed.
 Lemma over_cell_val a b : fin_of (gen_crps_over_cell (XFin a) (XFin b)) == Qpos_part (a - b).
 Proof. unfold gen_crps_over_cell, Qpos_part. cell; lra. Qed.
 
+(* the reductions the source names are the ones the proofs below are about (these break when the source changes them) *)
+Lemma pair_red_is_sum l : red gen_crps_pair_red l = nansum l. Proof. reflexivity. Qed.
+Lemma obs_red_is_mean l : red gen_crps_obs_red l = nanmean l. Proof. reflexivity. Qed.
+Lemma under_red_is_mean l : red gen_crps_under_red l = nanmean l. Proof. reflexivity. Qed.
+Lemma over_red_is_mean l : red gen_crps_over_red l = nanmean l. Proof. reflexivity. Qed.
+Lemma count_red_is_count l : red gen_crps_count_red l = xcount l. Proof. reflexivity. Qed.
+
 (* ---- the pieces of one case ---- *)
 Lemma count_model X : noinf X -> ens_count X = XFin (qlen (qvals X)).
-Proof. intro H. unfold ens_count, xcount, xofnat, qlen. rewrite (nancount_qvals X H). reflexivity. Qed.
+Proof. intro H. unfold ens_count. rewrite count_red_is_count. unfold xcount, xofnat, qlen. rewrite (nancount_qvals X H). reflexivity. Qed.
 
 Lemma obs_term_model X y : noinf X -> qvals X <> [] ->
   ens_obs_term X (XFin y) =x= XFin (q_obs_sum (qvals X) y / qlen (qvals X)).
 Proof.
-  intros H Hne. unfold ens_obs_term.
+  intros H Hne. unfold ens_obs_term. rewrite obs_red_is_mean.
   rewrite (nanmean_cells (fun x => gen_crps_obs_cell x (XFin y)) (fun a => fin_of (gen_crps_obs_cell (XFin a) (XFin y))) X H
              (obs_cell_nan_l _) (fun a => obs_cell_fin a y) Hne).
   cbn [xeq]. unfold q_obs_sum. rewrite (qsum_ext _ (fun x => Qabs (x - y))) by (intros; apply obs_cell_val). reflexivity.
 Qed.
 Lemma obs_term_nil X y : noinf X -> qvals X = [] -> ens_obs_term X (XFin y) = XNaN.
-Proof. intros H E. unfold ens_obs_term.
+Proof. intros H E. unfold ens_obs_term. rewrite obs_red_is_mean.
   apply (nanmean_cells_nil (fun x => gen_crps_obs_cell x (XFin y)) (fun a => fin_of (gen_crps_obs_cell (XFin a) (XFin y))) X H
              (obs_cell_nan_l _) (fun a => obs_cell_fin a y) E). Qed.
 Lemma obs_term_nanobs X : ens_obs_term X XNaN = XNaN.
-Proof. unfold ens_obs_term. apply nanmean_allnan. intro x. apply obs_cell_nan_r. Qed.
+Proof. unfold ens_obs_term. rewrite obs_red_is_mean. apply nanmean_allnan. intro x. apply obs_cell_nan_r. Qed.
 
 Lemma pair_sum_model X : noinf X -> ens_pair_sum X =x= XFin (q_pair_sum (qvals X)).
 Proof.
-  intro H. unfold ens_pair_sum.
+  intro H. unfold ens_pair_sum. rewrite (map_ext _ _ (fun xi => pair_red_is_sum _)).
   rewrite (xsum_map_fin _ (fun a => qsum (map (fun xj => fin_of (gen_crps_pair_cell (XFin xj) (XFin a))) (qvals X))) X H).
   - cbn [xeq]. unfold q_pair_sum. apply qsum_ext. intros a _. apply qsum_ext. intros; apply pair_cell_val.
   - unfold nansum. rewrite (valids_map_allnan (fun xj => gen_crps_pair_cell xj XNaN) X pair_cell_nan_r). reflexivity.
@@ -122,28 +129,28 @@ Qed.
 
 Lemma under_model X y : noinf X -> qvals X <> [] -> crps_under X (XFin y) =x= XFin (q_under (qvals X) y).
 Proof.
-  intros H Hne. unfold crps_under.
+  intros H Hne. unfold crps_under. rewrite under_red_is_mean.
   rewrite (nanmean_cells (fun x => gen_crps_under_cell x (XFin y)) (fun a => fin_of (gen_crps_under_cell (XFin a) (XFin y))) X H
              (under_cell_nan_l _) (fun a => under_cell_fin a y) Hne).
   cbn [xeq]. unfold q_under. rewrite (qsum_ext _ (fun x => Qpos_part (y - x))) by (intros; apply under_cell_val). reflexivity.
 Qed.
 Lemma over_model X y : noinf X -> qvals X <> [] -> crps_over X (XFin y) =x= XFin (q_over (qvals X) y).
 Proof.
-  intros H Hne. unfold crps_over.
+  intros H Hne. unfold crps_over. rewrite over_red_is_mean.
   rewrite (nanmean_cells (fun x => gen_crps_over_cell x (XFin y)) (fun a => fin_of (gen_crps_over_cell (XFin a) (XFin y))) X H
              (over_cell_nan_l _) (fun a => over_cell_fin a y) Hne).
   cbn [xeq]. unfold q_over. rewrite (qsum_ext _ (fun x => Qpos_part (x - y))) by (intros; apply over_cell_val). reflexivity.
 Qed.
 Lemma under_nil X y : noinf X -> qvals X = [] -> crps_under X (XFin y) = XNaN.
-Proof. intros H E. apply (nanmean_cells_nil (fun x => gen_crps_under_cell x (XFin y)) (fun a => fin_of (gen_crps_under_cell (XFin a) (XFin y))) X H
+Proof. intros H E. unfold crps_under. rewrite under_red_is_mean. apply (nanmean_cells_nil (fun x => gen_crps_under_cell x (XFin y)) (fun a => fin_of (gen_crps_under_cell (XFin a) (XFin y))) X H
              (under_cell_nan_l _) (fun a => under_cell_fin a y) E). Qed.
 Lemma over_nil X y : noinf X -> qvals X = [] -> crps_over X (XFin y) = XNaN.
-Proof. intros H E. apply (nanmean_cells_nil (fun x => gen_crps_over_cell x (XFin y)) (fun a => fin_of (gen_crps_over_cell (XFin a) (XFin y))) X H
+Proof. intros H E. unfold crps_over. rewrite over_red_is_mean. apply (nanmean_cells_nil (fun x => gen_crps_over_cell x (XFin y)) (fun a => fin_of (gen_crps_over_cell (XFin a) (XFin y))) X H
              (over_cell_nan_l _) (fun a => over_cell_fin a y) E). Qed.
 Lemma under_nanobs X : crps_under X XNaN = XNaN.
-Proof. apply nanmean_allnan. intro; apply under_cell_nan_r. Qed.
+Proof. unfold crps_under. rewrite under_red_is_mean. apply nanmean_allnan. intro; apply under_cell_nan_r. Qed.
 Lemma over_nanobs X : crps_over X XNaN = XNaN.
-Proof. apply nanmean_allnan. intro; apply over_cell_nan_r. Qed.
+Proof. unfold crps_over. rewrite over_red_is_mean. apply nanmean_allnan. intro; apply over_cell_nan_r. Qed.
 
 (* ---- normalisation of the spread term ---- *)
 Lemma norm_ecdf p m : 0 < m -> gen_crps_norm "ecdf" (XFin p) (XFin m) =x= XFin (p / (2 * m * m)).
@@ -526,3 +533,18 @@ Proof.
   assert (Mm : m == qlen X) by (rewrite M; ring).
   destruct fair; rewrite I, Mm; reflexivity.
 Qed.
+
+(* the interval variant rejects exactly lower >= upper (scalar and array form of the check) *)
+Lemma interval_guard_spec lo hi :
+  (gen_guard_interval (XFin lo) (XFin hi) = true <-> hi <= lo) /\ (gen_guard_interval_arr (XFin lo) (XFin hi) = true <-> hi <= lo).
+Proof. unfold gen_guard_interval, gen_guard_interval_arr. split; cell; split; intros; try discriminate; try lra; auto. Qed.
+Lemma tail_guard_spec tail : gen_guard_tail tail = None <-> tail = "upper" \/ tail = "lower".
+Proof. unfold gen_guard_tail.
+  destruct (String.eqb_spec tail "upper") as [->|N1]; [cbn; tauto|].
+  destruct (String.eqb_spec tail "lower") as [->|N2]; [cbn; tauto|].
+  cbn. split; [discriminate | intros [?|?]; contradiction]. Qed.
+Lemma method_guard_spec meth : gen_guard_crps_method meth = None <-> meth = "ecdf" \/ meth = "fair".
+Proof. unfold gen_guard_crps_method.
+  destruct (String.eqb_spec meth "ecdf") as [->|N1]; [cbn; tauto|].
+  destruct (String.eqb_spec meth "fair") as [->|N2]; [cbn; tauto|].
+  cbn. split; [discriminate | intros [?|?]; contradiction]. Qed.
